@@ -25,14 +25,27 @@ func Wait(c *sexp.S, out *Out) {
 		x := math.Float64frombits(c.List[4].Uint())
 		out.Put("%d", int64(ysgo.VerifSecondsToDuration(x)))
 	case "timing":
-		out.Put("%s", waitTiming(math.Float64frombits(c.List[4].Uint())))
+		out.Put("%s", patient(func() string { return waitTiming(math.Float64frombits(c.List[4].Uint())) }))
 	case "shape":
-		out.Put("%s", waitShape(c.List[4].Atom, c.List[5].Int(), c.List[6].Atom == "err"))
+		out.Put("%s", patient(func() string { return waitShape(c.List[4].Atom, c.List[5].Int(), c.List[6].Atom == "err") }))
 	case "abandon":
-		out.Put("%s", waitAbandon(c.List[4].Atom, c.List[5].Atom == "err", c.List[6].Atom == "err"))
+		out.Put("%s", patient(func() string { return waitAbandon(c.List[4].Atom, c.List[5].Atom == "err", c.List[6].Atom == "err") }))
 	default:
 		out.Put("BADKIND")
 	}
+}
+
+// patient: the verdicts "a Next call took longer than the budget" and "the command never completed" are measured against
+// the wall clock; on a machine that stalls this process for half a second (a freshly restored sandbox, a loaded host) they
+// say nothing about the library. Such a verdict is believed only when three attempts in a row give it — a Next that really
+// blocks, or a completion that is really lost, fails every time. Verdicts about order and values are never retried.
+func patient(scenario func() string) string {
+	res := scenario()
+	for attempt := 1; attempt < 3 && (strings.Contains(res, "blocked") || strings.Contains(res, "never-completed") || strings.Contains(res, "no-waiting-answer")); attempt++ {
+		time.Sleep(200 * time.Millisecond)
+		res = scenario()
+	}
+	return res
 }
 
 // waitAbandon: a command is pending, the runner is restored (which abandons that invocation), the abandoned invocation
